@@ -94,6 +94,8 @@ static __thread int t_in_det = 0;       // >0 while the detector/scheduler itsel
 static __thread uintptr_t t_stack_lo = 0, t_stack_hi = 0;
 
 extern "C" char __data_start, _end;
+// writable static storage brought along by assembly objects (see _asm_storage_named in checks.py); absent = null
+extern "C" { extern char __start_asmbss __attribute__((weak)), __stop_asmbss __attribute__((weak)), __start_asmdata __attribute__((weak)), __stop_asmdata __attribute__((weak)); }
 
 static asim::SymTab g_symtab;
 static std::string sym_of(void *pc) { return g_symtab.lookup(pc); }
@@ -551,6 +553,9 @@ struct ThreadsWorld : World {
         g->nthreads = nt;
         g->data_lo = (uintptr_t)&__data_start;
         g->data_hi = (uintptr_t)&_end;
+        Bytes asm_before;
+        if (&__start_asmbss && &__stop_asmbss > &__start_asmbss) asm_before.insert(asm_before.end(), (uint8_t *)&__start_asmbss, (uint8_t *)&__stop_asmbss);
+        if (&__start_asmdata && &__stop_asmdata > &__start_asmdata) asm_before.insert(asm_before.end(), (uint8_t *)&__start_asmdata, (uint8_t *)&__stop_asmdata);
         for (const Op &o : plan.ops)
             if (o.name == "knob.sched") {
                 g->mode = (int)(o.u(0) % 2);
@@ -618,6 +623,15 @@ struct ThreadsWorld : World {
         // verdicts
         if (g->cap_hit) run.violation("C16", "liveness", "step_cap", "scheduler step cap exceeded");
         if (g->races) run.violation("C16", "data_race", g->race_site, fmt("%llu conflicting access pairs; first: %s", (unsigned long long)g->races, g->race_detail.c_str()));
+        {
+            Bytes asm_after;
+            if (&__start_asmbss && &__stop_asmbss > &__start_asmbss) asm_after.insert(asm_after.end(), (uint8_t *)&__start_asmbss, (uint8_t *)&__stop_asmbss);
+            if (&__start_asmdata && &__stop_asmdata > &__start_asmdata) asm_after.insert(asm_after.end(), (uint8_t *)&__start_asmdata, (uint8_t *)&__stop_asmdata);
+            if (!asm_after.empty()) run.probe("asm.static_storage_watched");
+            if (asm_after != asm_before)
+                run.violation("C16", "hidden_global_state", "assembly_object_static_storage",
+                              fmt("%zu bytes of writable static storage that belong to assembly objects changed during the run (the detector cannot see the stores themselves)", asm_after.size()));
+        }
         if (g->glob_writes) run.violation("C16", "hidden_global_state", g->glob_site, fmt("%llu stores to the executable's writable static storage; first: %s", (unsigned long long)g->glob_writes, g->glob_detail.c_str()));
         for (int t = 0; t < nt; ++t) {
             for (size_t i = 0; i < seq[t].size(); ++i) {
